@@ -99,7 +99,7 @@ EXTRA = {
  'C04': "Also: the rollup job is single-flight (CAS claim, no blind Store(true)); the reference record is written, looked up and deleted under the same key (source store, source family id, file). The series merger decodes every input block over the block's own slot range (rule shared with C03). The targets' reference records are cleaned only on the TRUE outcome of the source family's commit (F23, fixed); every requested source file becomes an input of the rollup merge or the work fails — a file compacted out of level 0 is not passed over (F24, fixed).",
  'C05': "Also: a failed page acquisition leaves the write cursor untouched (no cursor store before a failing exit, page switch only after AcquirePage succeeded); index page and slot are computed from one sequence in writer, reader, GC and reopen, reopen using exactly the appended sequence; no page read in Get is reachable once the sequence was found out of range. The index entry of a message is written into the cached index page only when the cached page index was compared EQUAL to seq / indexItemsPerPage or just switched to it (the appended sequence can move backwards); data pages are mapped with a size provably >= the constant alloc rolls over at.",
  'C06': "Also: every position written by an explicit reset is persisted in the same hold. A consumer group is opened (positions lifted to the queue-wide ack read at that moment) and registered in ONE write hold of the map lock that Sync reads under.",
- 'C07': "Also: a consumer group is empty only when appended <= ACKNOWLEDGED (never the consumed position), and the expiry of a partition asks every group: a family log is not collected while applied-but-unflushed entries exist. Once one group answered non-empty, IsExpire can only return false (path-sensitive boolean constant propagation); the id sequences are synced before the metadata dictionaries are flushed (rule shared with C09).",
+ 'C07': "Also: a consumer group is empty only when appended <= ACKNOWLEDGED (never the consumed position), and the expiry of a partition asks every group: a family log is not collected while applied-but-unflushed entries exist. Once one group answered non-empty, IsExpire can only return false (path-sensitive boolean constant propagation); the id sequences are synced before the metadata dictionaries are flushed (rule shared with C09). The sequence key of a local replicator is the channel's leader and a flusher records every sequence it is given (0 included); an entry's sequence must be committed inside the write bracket of its rows — the one call site that does not is the recorded finding F28.",
  'C08': "Also: the queue-level barrier is the minimum over the groups' ACKNOWLEDGED positions (rule shared with C06); index<->sequence conversions of the replicator are inverse pairs (AppendIndex/ResetAppendIndex, ReplicaIndex/ResetReplicaIndex, ack without offset); every Ready exit of the handshake passed closeStream() (a stream of the failed period is never re-used). The leader's family log is reported expired only when every consumer group is drained: after a group answered non-empty no return of IsExpire can yield true (path-sensitive boolean constant propagation over the flag, whatever its form).",
  'C09': "Also: the flush life-cycle rules are shared with C10; the flush version handed to the resolver is the value read (under the lock) before the unlocked lookup. Schema flush marks persisted exactly what it wrote (genuine defect F16, fixed); the schema compaction merger accumulates each metric into a fresh object, or a reused one with every list Unmarshal appends to emptied first. PrepareFlush never installs an immutable store that Flush would skip and keep (F17, fixed).",
  'C10': "Also: every index reader reads the memory stores BEFORE it picks the snapshot (entries only move memory -> kv store; the opposite order was genuine defects F9/F11, fixed); the universe of NOT is read for the tag key the atomic filter reports, also when nothing matched; an atom that matches no value yields an empty set, not an error; prepare-flush/flush life cycle of the four memory stores. Group-by resolution asks every grouping scanner of every tag key (no break / return out of the scan); the dictionary create path re-checks mutable AND immutable store under the write lock (rule shared with C09). The run of container i in a persisted forward index starts after the runs of ALL containers before it (lookup table = running sum; F18, fixed); a persisted regex lookup narrows its candidate keys by the literal prefix only for an anchored expression (F19, fixed); no like-pattern is sliced out of range (F20, fixed); a swapped store is always drained (F17, fixed; shared with C09).",
